@@ -15,7 +15,7 @@ print(base_pt, [m[1] for m in members][:1])
 which = rng.choice(['member0', 'member-last', 'nonmember']); print(which)
 m0 = members[0][0]
 fitgeom = rng.choice(['shift', 'general', 'rscale']); n = rng.choice([6, 12])
-R = np.array([[rng.uniform(-150, 150) for _ in range(n)], [rng.uniform(-150, 150) for _ in range(n)]])
+R = np.array([[m0.wcs.wcs.crpix[0] + rng.uniform(-400, 400) for _ in range(n)], [m0.wcs.wcs.crpix[1] + rng.uniform(-400, 400) for _ in range(n)]])
 G = c02.gen_corr(rng, 1.0, False); print('G', G.M, G.t)
 for mode in ['self', 'copy', 'none']:
     m = m0.copy(); plane0 = m.copy()
